@@ -132,6 +132,9 @@ extern "C" void harness_c06_number()
 extern "C" void harness_c06_api()
 {
     int ka = (int)verif_choice("ka", K_COUNT), kb = (int)verif_choice("kb", K_COUNT);
+    // pairs of exact non-integers are the subject of C05 (and of harness_c06_number); here at least one operand is an
+    // integer, a float, an infinity or nan
+    verif_assume(!((ka == K_RAT || ka == K_CPLX) && (kb == K_RAT || kb == K_CPLX)));
     RCP<const Number> a = operand(ka, "a"), b = operand(kb, "b");
     bool k1 = (ka == K_INF && kb == K_NAN) || (ka == K_NAN && kb == K_INF) ? verif_known("C06/infty-op-nan", true) : false;
     bool fz = (finite_float(*a) && a->is_zero() && is_exact(*b)) || (finite_float(*b) && b->is_zero() && is_exact(*a));
